@@ -1,11 +1,11 @@
 package jobs
 
 import (
-	"os"
 	"context"
 	"encoding/json"
 	"errors"
 	"fmt"
+	"os"
 	"sort"
 	"strings"
 	"time"
@@ -29,8 +29,8 @@ type failSink struct {
 	onCall    func(call int) error // optional hook (kill, fail at index)
 }
 
-func (f *failSink) GetConfig() map[string]interface{}    { return f.inner.GetConfig() }
-func (f *failSink) startFullSync(runner *Runner) error  { return f.inner.startFullSync(runner) }
+func (f *failSink) GetConfig() map[string]interface{}  { return f.inner.GetConfig() }
+func (f *failSink) startFullSync(runner *Runner) error { return f.inner.startFullSync(runner) }
 func (f *failSink) endFullSync(ctx context.Context, runner *Runner) error {
 	return f.inner.endFullSync(ctx, runner)
 }
@@ -81,10 +81,19 @@ type C17Config struct {
 	// Reenter: while the sink handles its k-th call, another trigger of the same job fires (job.Run is entered again;
 	// it gets no ticket and is skipped). 0 = no second trigger.
 	Reenter int `json:"reenter,omitempty"`
+	// Batches: number of batches the source holds (0 = 2)
+	Batches int `json:"batches,omitempty"`
+}
+
+func (c C17Config) batches() int {
+	if c.Batches == 0 {
+		return 2
+	}
+	return c.Batches
 }
 
 func (c C17Config) String() string {
-	s := fmt.Sprintf("batch=%d entities=%d rejected=%v maxItems=%d transientFailures=%d pipeline=%s", c.B, 2*c.B, c.F, c.MaxItems, c.Transient, c.Pipeline)
+	s := fmt.Sprintf("batch=%d entities=%d rejected=%v maxItems=%d transientFailures=%d pipeline=%s", c.B, c.batches()*c.B, c.F, c.MaxItems, c.Transient, c.Pipeline)
 	if c.Reenter > 0 {
 		s += fmt.Sprintf(" secondTriggerDuringSinkCall=%d", c.Reenter)
 	}
@@ -107,7 +116,7 @@ func c17Run(cfg C17Config) (viol []engine.Violation, outcome string, herr string
 		return nil, "", err.Error()
 	}
 	pool := model.Pool(0)
-	n := 2 * cfg.B
+	n := cfg.batches() * cfg.B
 	var ids []string
 	var ents []server.VEnt
 	for i := 0; i < n; i++ {
@@ -231,13 +240,17 @@ type C17Rerun struct {
 	Attempts   []string `json:"attempts"` // fail | ok | kill, outcome of attempt k (last one repeats)
 	WithLog    bool     `json:"with_log"`
 	// Triggers: number of triggers that fire one after the other before any re-run timer does (0 = 1)
-	Triggers int `json:"triggers,omitempty"`
+	Triggers int    `json:"triggers,omitempty"`
+	Pipeline string `json:"pipeline,omitempty"` // "" = incremental
 }
 
 func (c C17Rerun) String() string {
 	s := fmt.Sprintf("reRun maxRetries=%d retryDelay=%ds attempts=%v log=%v", c.MaxRetries, c.Delay, c.Attempts, c.WithLog)
 	if c.Triggers > 1 {
 		s += fmt.Sprintf(" triggersBeforeTimers=%d", c.Triggers)
+	}
+	if c.Pipeline != "" {
+		s += " pipeline=" + c.Pipeline
 	}
 	return s
 }
@@ -259,7 +272,11 @@ func c17RerunRun(cfg C17Rerun) (viol []engine.Violation, outcome string, herr st
 	if cfg.WithLog {
 		on = append(on, map[string]interface{}{"errorHandler": "log"})
 	}
-	jb, jc, err := jw.newJob(h, JobSpec{Sources: []string{"S"}, Sink: "Z", JobType: "incremental", BatchSize: 1, OnError: on})
+	jt := cfg.Pipeline
+	if jt == "" {
+		jt = "incremental"
+	}
+	jb, jc, err := jw.newJob(h, JobSpec{Sources: []string{"S"}, Sink: "Z", JobType: jt, BatchSize: 1, OnError: on})
 	if err != nil {
 		return nil, "", "newJob: " + err.Error()
 	}
@@ -347,7 +364,7 @@ func c17RerunRun(cfg C17Rerun) (viol []engine.Violation, outcome string, herr st
 
 // countingPipeline counts the runs of a job (re-runs are started by the job itself).
 type countingPipeline struct {
-	inner Pipeline
+	inner    Pipeline
 	runs     int
 	onRun    func()
 	outcomes []string
@@ -428,7 +445,7 @@ func subsets(n int) [][]int {
 func init() {
 	engine.RegisterCheck("C17", func(r *engine.Run) {
 		r.Level = "fault_enumeration"
-		r.Rule = "FAULT ENUM: for every batch size b up to the bound the source holds two batches (2b entities) and EVERY subset of them is rejected by a sink double (permanently), for every maxItems in 0..3 and both pipelines, plus transient sink failures (first r calls); real job, real wrappedSink / log handler / result recording; oracle: all other entities before the stopping point delivered exactly once, each rejected entity reported exactly once, nothing delivered or reported after the maxItems-th rejection, recorded outcome carries an error iff something was rejected. reRun: every maxRetries in 0..3 x every sequence of attempt outcomes {fail, ok, kill} up to length 4, timers owned by the controlled scheduler; oracle: run count, configured delay, no re-run after success or kill. distinct = distinct outcome digests"
+		r.Rule = "FAULT ENUM: for every batch size b up to the bound the source holds two batches (2b entities) and EVERY subset of them is rejected (plus long runs of 12-40 batches with one rejected entity each, so that the number of bisections in one run exceeds 32) by a sink double (permanently), for every maxItems in 0..3 and both pipelines, plus transient sink failures (first r calls); real job, real wrappedSink / log handler / result recording; oracle: all other entities before the stopping point delivered exactly once, each rejected entity reported exactly once, nothing delivered or reported after the maxItems-th rejection, recorded outcome carries an error iff something was rejected. reRun: every maxRetries in 0..3 x every sequence of attempt outcomes {fail, ok, kill} up to length 4 (incremental; length 3 for fullsync jobs), timers owned by the controlled scheduler; oracle: run count, configured delay, no re-run after success or kill. distinct = distinct outcome digests"
 		r.Assumptions = []string{"the sink double rejects whole calls, as a real sink does", "timers fire only when the controlled scheduler lets them (logical time)"}
 		maxB := 5
 		if !r.Quick() {
@@ -458,6 +475,19 @@ func init() {
 				}
 			}
 		}
+		// long runs: many batches, each with one rejected entity (the number of bisections grows with the run)
+		for _, pl := range []string{"incremental", "fullsync"} {
+			for _, bb := range [][2]int{{2, 40}, {4, 20}, {8, 12}} {
+				b, nb := bb[0], bb[1]
+				for _, pos := range []int{0, b - 1} {
+					var f []int
+					for k := 0; k < nb; k++ {
+						f = append(f, k*b+pos)
+					}
+					logCfgs = append(logCfgs, C17Config{B: b, Batches: nb, F: f, Pipeline: pl})
+				}
+			}
+		}
 		var rerun []C17Rerun
 		var seqs [][]string
 		var gen func(cur []string)
@@ -481,6 +511,14 @@ func init() {
 			}
 		}
 		rerun = append(rerun, C17Rerun{MaxRetries: 2, Delay: 0, Attempts: []string{"fail", "fail", "fail"}})
+		// the same for a fullsync job
+		for mr := 0; mr <= 3; mr++ {
+			for _, sq := range seqs {
+				if len(sq) <= 3 {
+					rerun = append(rerun, C17Rerun{MaxRetries: mr, Delay: 7, Attempts: sq, Pipeline: "fullsync"})
+				}
+			}
+		}
 		// several failing triggers within one retry delay
 		for mr := 1; mr <= 3; mr++ {
 			for tr := 2; tr <= 3; tr++ {
